@@ -11,6 +11,15 @@ import (
 // parameter to its argument, a load of a captured variable to the one value the caller stored in it
 // (nil when the variable is written more than once or inside the closure). Other values map to nil.
 func toCaller(tf *ssa.Function, site *ssa.Call, v ssa.Value) ssa.Value {
+	// a field of a struct parameter: the value the caller put into that field of the argument
+	if par, field, ok := paramField(tf, v); ok {
+		for i, pp := range tf.Params {
+			if pp == par && i < len(site.Call.Args) {
+				return fieldOfStructValue(site.Call.Args[i], field)
+			}
+		}
+		return nil
+	}
 	switch x := v.(type) {
 	case *ssa.Const:
 		return x
@@ -111,4 +120,74 @@ func onlyCalled(p *an.Prog, tf *ssa.Function) ([]*ssa.Call, bool) {
 		})
 	}
 	return sites, ok && len(sites) > 0
+}
+
+// paramField: v is par.f for a struct parameter par of tf - read directly, through the local copy the
+// parameter was spilled to, or through a local variable that holds that value.
+func paramField(tf *ssa.Function, v ssa.Value) (*ssa.Parameter, int, bool) {
+	v = an.Deref(v)
+	switch x := v.(type) {
+	case *ssa.Field:
+		if par, ok := an.Deref(x.X).(*ssa.Parameter); ok && par.Parent() == tf {
+			return par, x.Field, true
+		}
+	case *ssa.UnOp:
+		if x.Op != token.MUL {
+			return nil, 0, false
+		}
+		fa, ok := x.X.(*ssa.FieldAddr)
+		if !ok {
+			return nil, 0, false
+		}
+		al, ok := fa.X.(*ssa.Alloc)
+		if !ok {
+			return nil, 0, false
+		}
+		st := an.Stores(al)
+		if len(st) != 1 {
+			return nil, 0, false
+		}
+		// no store into a field of the copy either
+		if al.Referrers() != nil {
+			for _, u := range *al.Referrers() {
+				if f2, ok := u.(*ssa.FieldAddr); ok && len(an.Stores(f2)) > 0 {
+					return nil, 0, false
+				}
+			}
+		}
+		if par, ok := st[0].(*ssa.Parameter); ok && par.Parent() == tf {
+			return par, fa.Field, true
+		}
+	}
+	return nil, 0, false
+}
+
+// fieldOfStructValue: the one value stored into field f of the struct value v, which is a load of a
+// local struct (a literal, or a variable filled field by field): nil when it is not unique.
+func fieldOfStructValue(v ssa.Value, f int) ssa.Value {
+	ld, ok := v.(*ssa.UnOp)
+	if !ok || ld.Op != token.MUL {
+		return nil
+	}
+	al, ok := ld.X.(*ssa.Alloc)
+	if !ok || al.Referrers() == nil {
+		return nil
+	}
+	var vals []ssa.Value
+	for _, u := range *al.Referrers() {
+		switch x := u.(type) {
+		case *ssa.FieldAddr:
+			if x.Field == f {
+				vals = append(vals, an.Stores(x)...)
+			}
+		case *ssa.Store:
+			if x.Addr == ssa.Value(al) {
+				return nil // assigned as a whole
+			}
+		}
+	}
+	if len(vals) == 1 {
+		return vals[0]
+	}
+	return nil
 }
